@@ -148,6 +148,15 @@ def check_property(prop, tier, seed, timeout_s):
                 all_obls.append(o)
     vcgen_s = time.time() - t0
     discharge.discharge(all_obls, timeout_ms=timeout_s * 1000, second_solver=(tier == "thorough"))
+    # frame / effect obligations (modular effect analysis over the same ASTs, DESIGN.md 1.6)
+    if spec.get("effects"):
+        from . import effects
+        an = effects.Analysis()
+        eobls = effects.c06_obligations(an) if spec["effects"] == "C06" else effects.c14_obligations(an)
+        for o in eobls:
+            if spec.get("effects_oracle"):
+                o.func = spec["effects_oracle"]
+        all_obls += eobls
     if os.environ.get("VERIF_SAVE_LADDER_HINTS"):
         discharge.save_hints(all_obls)
     # vacuity: no reachability point may have contradictory hypotheses
